@@ -475,6 +475,7 @@ def run(ctx):
     ctx.rule("R-6.2", "restore provenance of the scheduler stream (cross-reference to C07)", floor=1)
     ctx.rule("R-6.3", "no nondeterministic source reaches restart.toml or the data file (taint analysis)", floor=10)
     ctx.rule("R-6.4", "per-run state is per instance", floor=3)
+    ctx.rule("R-6.7", "every configuration key is accessed under one section path across the package (what the run used is what the restart uses)", floor=20)
     ctx.rule("R-6.5", "the restart file is written from the final state of the step: nothing it serialises is modified after write_toml in treat_output", floor=1)
     ctx.attempt(r61, ctx)
     ctx.attempt(r62, ctx)
@@ -483,9 +484,13 @@ def run(ctx):
     ctx.attempt(r66, ctx)
     from .shared import commit_is_final
     ctx.attempt(commit_is_final, ctx, "R-6.5")
+    from .shared import config_section_agreement
+    ctx.attempt(config_section_agreement, ctx, "R-6.7", " - a path loaded at a restart is then weighted / treated with another setting than the same path during the run")
 
 
 VARIANTS = [
+    B("c06-cap-from-wrong-section", REPEX, "                cap=self.cap,\n            )\n            self.add_traj(\n                ens=i,", "                cap=self.config[\"simulation\"].get(\"interface_cap\", None),\n            )\n            self.add_traj(\n                ens=i,", "R-6.7", control=True, why="seeded C06_c"),
+    K("c06-keep-cap-from-right-section-alias", REPEX, "                cap=self.cap,\n            )\n            self.add_traj(\n                ens=i,", "                cap=self.config[\"simulation\"][\"tis_set\"].get(\"interface_cap\", None),\n            )\n            self.add_traj(\n                ens=i,"),
     B("c06-rng-state-not-saved", REPEX, '        self.config["current"]["rng_state"] = self.rgen.bit_generator.state\n', "", "R-6.1", control=True),
     B("c06-rng-state-wrong-object", REPEX, '        self.config["current"]["rng_state"] = self.rgen.bit_generator.state\n', '        self.config["current"]["rng_state"] = default_rng(seed=self.cstep).bit_generator.state\n', "R-6.1"),
     B("c06-frac-read-int-key", REPEX, "                str(pnum), np.zeros(size + 1)\n            )\n            self.traj_data[pnum] = {\n                \"ens_save_idx\": i + 1,", "                pnum, np.zeros(size + 1)\n            )\n            self.traj_data[pnum] = {\n                \"ens_save_idx\": i + 1,", "R-6.1"),
